@@ -131,6 +131,10 @@ def gen_spec(rng: random.Random, *, for_fit: bool = True, small: bool = False) -
             opts["min"] = round(k / 20, 5)
             opts["max"] = round(k * 20, 4)
         start = round(k * rng.uniform(0.8, 1.25), 4)
+        if "max" in opts and rng.random() < 0.06:
+            # an infeasible start value: legal to write down, the optimiser must refuse it and leave it alone
+            start = round(opts["max"] * 1.5, 4)
+            feats.append("start-outside-bounds")
         rate_list.append([f"k{i + 1}", start, opts] if opts else [f"k{i + 1}", start])
     params["rates"] = rate_list
 
